@@ -113,6 +113,24 @@ func work(w *mon.W) {
 				}
 				st.mu.Unlock()
 			}
+			if uri := string(ctx.Request.RequestURI()); strings.HasPrefix(uri, "/replace") {
+				// the handler does not read the streamed body but replaces or drops it on the
+				// request object (a rewriting middleware, a proxy that substitutes the body)
+				switch uri[len("/replace")] {
+				case '0':
+					ctx.Request.SetBody([]byte("substitute"))
+				case '1':
+					ctx.Request.ResetBody()
+				case '2':
+					ctx.Request.SetBodyStream(strings.NewReader("zz"), 2)
+				case '3':
+					ctx.Request.BodyWriteTo(failingWriter{}) //nolint:errcheck
+				case '4':
+					ctx.Request.SetBodyString("substitute")
+				default:
+					ctx.Request.SwapBody([]byte("swapped"))
+				}
+			}
 			if strings.HasPrefix(string(ctx.Request.RequestURI()), "/viabody") {
 				// the streamed body is consumed through the buffered accessor
 				b, err := ctx.Request.BodyE()
@@ -221,6 +239,9 @@ func work(w *mon.W) {
 	// timeout error on the connection) and then sends the rest, followed by another request.
 	// The handler (raw stream reads, or the buffered Body accessor) may see a prefix and a
 	// non-EOF error; what arrives late must be drained as body or the connection closed.
+	// replaced: a streamed body longer than the prefetch that the handler does not read
+	// but replaces / drops / fails to copy; the bytes still on the wire read like a request
+	w.Cases("replaced", uint64(w.Pick(3000, 60000)), func(c *mon.Case) { replacedCase(w, c, e, st) })
 	w.Cases("stall-resume", uint64(w.Pick(3000, 60000)), func(c *mon.Case) { stallResume(w, c, e, st) })
 	// after-abort: first a connection whose peer vanishes in the middle of a streamed body
 	// that the handler read only partly (draining it fails), then — on a new connection of
@@ -251,6 +272,87 @@ func work(w *mon.W) {
 		}
 		oneConn(w, c, e, st, nil, nil)
 	})
+}
+
+type failingWriter struct{}
+
+func (failingWriter) Write(p []byte) (int, error) { return 0, fmt.Errorf("writer fails") }
+
+func replacedCase(w *mon.W, c *mon.Case, e *route.Engine, st *state) {
+	r := c.R
+	id := c.G*1000 + uint64(r.Intn(1000))
+	L := r.Int(100, 8300, 9000, 20000, 70000)
+	chunked := r.Chance(3)
+	mut := r.Intn(6)
+	body := wire.PosBody(int(id%50), L)
+	sm := fmt.Sprintf("GET /smuggled-%d HTTP/1.1\r\nHost: x\r\n\r\n", id)
+	if L > 8300 {
+		at := 8192 + r.Intn(L-8192-len(sm)+1)
+		copy(body[at:], sm)
+	}
+	path := fmt.Sprintf("/replace%d-%d", mut, id)
+	var wb bytes.Buffer
+	if chunked {
+		fmt.Fprintf(&wb, "POST %s HTTP/1.1\r\nHost: x\r\nTransfer-Encoding: chunked\r\n\r\n%x\r\n", path, L)
+		wb.Write(body)
+		wb.WriteString("\r\n0\r\n\r\n")
+	} else {
+		fmt.Fprintf(&wb, "POST %s HTTP/1.1\r\nHost: x\r\nContent-Length: %d\r\n\r\n", path, L)
+		wb.Write(body)
+	}
+	reqWire := wb.Bytes()
+	probe := fmt.Sprintf("GET /probe-%d HTTP/1.1\r\nHost: x\r\n\r\n", id)
+	stream := append(append([]byte{}, reqWire...), probe...)
+	frags, policy := wire.FragSchedule(r, stream, []int{len(reqWire)})
+	buf := r.Int(4096, 4096, 100, 8192)
+	st.mu.Lock()
+	st.cur, st.got, st.gotErr, st.paths, st.done, st.hasDone = plan{stopAfter: -1, readSizes: []int{4096}}, nil, nil, nil, nil, false
+	st.mu.Unlock()
+	names := []string{"SetBody", "ResetBody", "SetBodyStream", "BodyWriteTo(failing writer)", "SetBodyString", "SwapBody"}
+	c.Detail = func() interface{} {
+		return map[string]interface{}{"family": "replaced", "body_len": L, "chunked": chunked, "handler_calls": "Request." + names[mut], "policy": policy, "buf": buf}
+	}
+	sc := sconn.New(frags, sconn.EOF)
+	res := rig.Serve(e, sc, buf, false, 15*time.Second)
+	w.Count("replaced_connections", 1)
+	if res.Hang {
+		c.Violate("hang", "Serve did not finish on a finite input\n%s", trunc(res.Stack, 2500))
+		return
+	}
+	if res.Panic != nil {
+		c.Violate(mon.PanicKey(res.Stack), "panic: %v\n%s", res.Panic, trunc(res.Stack, 2000))
+		return
+	}
+	st.mu.Lock()
+	paths := append([]string{}, st.paths...)
+	st.mu.Unlock()
+	np := 0
+	for _, p := range paths {
+		switch p {
+		case "POST " + path:
+		case fmt.Sprintf("GET /probe-%d", id):
+			np++
+		default:
+			key := "desync"
+			if strings.Contains(p, "/smuggled-") {
+				key = "smuggled-request"
+			}
+			c.Violate(key, "after a handler that called Request.%s instead of reading its %d-byte streamed body, a handler ran for %q, which is not one of the requests sent", names[mut], L, trunc(p, 80))
+			return
+		}
+	}
+	out := string(res.Out)
+	nresp := strings.Count(out, "HTTP/1.1 ")
+	switch {
+	case np == 1 && nresp == 2 && strings.HasSuffix(out, "ok:/probe-"+fmt.Sprint(id)):
+		w.Count("replaced_probe_served", 1)
+	case np == 0 && nresp == 1:
+		w.Count("replaced_closed", 1)
+	default:
+		c.Violate("closed-but-more", "after Request.%s: probe served %d times, %d responses written: %q", names[mut], np, nresp, trunc(out, 300))
+		return
+	}
+	w.Shape(mon.Hash64("replaced", L, chunked, mut, policy, buf))
 }
 
 func stallResume(w *mon.W, c *mon.Case, e *route.Engine, st *state) {
